@@ -75,6 +75,14 @@ func genScriptBase(r *rand.Rand) *ScriptPlan {
 }
 
 func genC03(seed uint64, idx int) *Plan {
+	if idx%16 == 5 {
+		// what the accessors report after a HelloRetryRequest and a second hello
+		// (well-formed or refused): C06's histories, judged for the accessors only
+		if idx%32 == 5 {
+			return genC04(seed, 9+10*(idx/32))
+		}
+		return genC06(seed, idx)
+	}
 	r := core.NewRand(seed, "plan")
 	if r.IntN(5) < 2 {
 		// re-encoding client between the real crypto/tls client and the front
